@@ -58,6 +58,7 @@ theorem append_grows (d : Deque) (E : Externals) (now : Int) (v : PyVal) (h : Ok
       r.mode = c.mode ∧ r.val = c.val ∧ r.file = c.file := by
   obtain ⟨r, h1, h2, h3, h4, h5, hinv1, -, -⟩ :=
     pushed_spec d E now v false h.inv h.pol h.noexp h.qok h.room h.origin hst hcb
+  obtain ⟨k, hk⟩ := pushed_out d E now v false h.inv h.pol h.noexp h.qok h.room h.origin hst hcb
   have hcount : (pushed d E now v false).count = ((items d).length : Int) + 1 := by
     rw [hinv1.tbl.count, h1, h.items_length]; simp
   have htl : d.tooLong (pushed d E now v false) = false := by
@@ -70,7 +71,7 @@ theorem append_grows (d : Deque) (E : Externals) (now : Int) (v : PyVal) (h : Ok
       omega
   refine ⟨r, ?_, h3, h4, h5⟩
   show (d.append E now v false).1.cache.queueRows none = _
-  rw [append_cache, htl]
+  rw [append_cache d E now v false k hk, htl]
   simp only [Bool.false_eq_true, if_false]
   rw [tend_queueRows, h2]
   rfl
@@ -83,6 +84,7 @@ theorem appendleft_grows (d : Deque) (E : Externals) (now : Int) (v : PyVal) (h 
       r.mode = c.mode ∧ r.val = c.val ∧ r.file = c.file := by
   obtain ⟨r, h1, h2, h3, h4, h5, hinv1, -, -⟩ :=
     pushed_spec d E now v true h.inv h.pol h.noexp h.qok h.room h.origin hst hcb
+  obtain ⟨k, hk⟩ := pushed_out d E now v true h.inv h.pol h.noexp h.qok h.room h.origin hst hcb
   have hcount : (pushed d E now v true).count = ((items d).length : Int) + 1 := by
     rw [hinv1.tbl.count, h1, h.items_length]; simp
   have htl : d.tooLong (pushed d E now v true) = false := by
@@ -95,7 +97,7 @@ theorem appendleft_grows (d : Deque) (E : Externals) (now : Int) (v : PyVal) (h 
       omega
   refine ⟨r, ?_, h3, h4, h5⟩
   show (d.append E now v true).1.cache.queueRows none = _
-  rw [append_cache, htl]
+  rw [append_cache d E now v true k hk, htl]
   simp only [Bool.false_eq_true, if_false]
   rw [tend_queueRows, h2]
   rfl
@@ -110,6 +112,7 @@ theorem append_full (d : Deque) (E : Externals) (now : Int) (v : PyVal) (h : Ok 
       r.mode = c.mode ∧ r.val = c.val ∧ r.file = c.file := by
   obtain ⟨r, h1, h2, h3, h4, h5, hinv1, hcfg, hfiles⟩ :=
     pushed_spec d E now v false h.inv h.pol h.noexp h.qok h.room h.origin hst hcb
+  obtain ⟨k, hk⟩ := pushed_out d E now v false h.inv h.pol h.noexp h.qok h.room h.origin hst hcb
   have hcount : (pushed d E now v false).count = ((items d).length : Int) + 1 := by
     rw [hinv1.tbl.count, h1, h.items_length]; simp
   have htl : d.tooLong (pushed d E now v false) = true := by
@@ -130,7 +133,7 @@ theorem append_full (d : Deque) (E : Externals) (now : Int) (v : PyVal) (h : Ok 
       (h.unexpired hx now) (by rw [hfx]; exact hfile x hx)
     refine ⟨r, ?_, h3, h4, h5⟩
     show (d.append E now v false).1.cache.queueRows none = _
-    rw [append_cache, htl]
+    rw [append_cache d E now v false k hk, htl]
     simp only [if_true, Bool.not_false]
     rw [tend_queueRows, hp]
     rfl
